@@ -12,9 +12,9 @@ EXPLANATION = ("Raw mesh data with symbolic declared edges (end points in [-1, V
                "(from_arrays) must give the same connectivity answers as list input.")
 BOUNDS = {
     "quick": "V=3..4 vertices; <=2 declared edges with arbitrary end points in [-1,V]; faces in {none, one triangle, two triangles, "
-             "one quad}; cells in {none, one tetrahedron}; sparse/dense edge attribute with symbolic int values; both completion "
+             "one quad}; strips of 3 faces with every arity sequence over {3,4,5}; cells in {none, one tetrahedron}; sparse/dense edge attribute with symbolic int values; both completion "
              "switches; build once / re-wrap / copy; from_arrays for the two-triangle surface, the quad and 1-2 tetrahedra",
-    "thorough": "adds a third declared edge, a pentagon, two tetrahedra sharing a face and one hexahedron (V=8)",
+    "thorough": "adds strips of 4 faces with arities over {3..6}, a third declared edge, a pentagon, two tetrahedra sharing a face and one hexahedron (V=8)",
 }
 OUTSIDE = "duplicate declared edges; file-built meshes (C04); larger inputs"
 ASSUMPTIONS = ["declared edges are pairwise distinct as unordered pairs", "face and cell indices are in range (from_arrays rejects others)"]
@@ -299,6 +299,35 @@ def arrays_case(sx):
         sx.check(False, "connectivity query raised on a numpy-built mesh" + tag, detail=repr(e))
 
 
+def mixed_case(nfaces, amax):
+    """a strip of faces whose arities are symbolic (every sequence over {3..amax}): corner records, edge completion and the
+    connectivity answers of a mesh mixing triangles, quads and polygons"""
+    def h(sx):
+        import mouette as M
+        ar = [3 + sx.choice("arity%d" % k, amax - 2) for k in range(nfaces)]
+        faces = [tuple(range(ar[0]))]
+        nxt = ar[0]
+        a, b = 0, 1                       # the directed side (a,b) of the previous face that the next one is glued to
+        for n in ar[1:]:
+            new = list(range(nxt, nxt + n - 2))
+            nxt += n - 2
+            faces.append(tuple([b, a] + new))
+            a, b = new[-1], b             # closing side (new[-1], b) of the face just added
+        V = nxt
+        rot = sx.choice("rotation", 3)
+        faces = [tuple(F[(i + rot) % len(F)] for i in range(len(F))) for F in faces]
+        tag = " [arities %s]" % "".join(str(n) for n in ar)
+        try:
+            mesh = meshgen.build(meshgen.generic_coords(V), (), faces, ())
+        except Exception as e:
+            sx.check(False, "construction raised" + tag, detail=repr(e))
+            return
+        exp = expected(V, [], faces, [], True, True)
+        check_containers(sx, mesh, V, exp, [], tag, hard_expected=False)
+        surfcheck.check_all(sx, mesh, V, faces, tag=tag, order=["corners", "faces", "halfedges", "ids"])
+    return h
+
+
 def obligations(tier):
     q = tier == "quick"
     obs = [Ob("edges-V3", edges_case(3, 2, ["none", "tri"]), covers=COVERS, split=6,
@@ -309,6 +338,8 @@ def obligations(tier):
               note="faces completed from cells, corner / cell-face records"),
            Ob("rebuild", rebuild_case, covers=COVERS, split=4, note="re-wrap / copy of a built mesh"),
            Ob("arrays", arrays_case, covers=COVERS, split=3, note="numpy-row input vs list input")]
+    obs.append(Ob("mixed-arities", mixed_case(3, 5) if q else mixed_case(4, 6), covers=COVERS, split=3,
+                  note="strips of %s faces with every arity sequence over {3..%d}" % (("3", 5) if q else ("4", 6))))
     if not q:
         obs.append(Ob("edges-V5-3", edges_case(5, 3, ["penta"]), covers=COVERS, split=8, required=False,
                       note="three declared edges around a pentagon"))
